@@ -622,6 +622,14 @@ class Program:
                     if init is not None and init not in out:
                         out.append(init)
                 return CallRes(out, how="ctor:cls")
+            for n_ in walk_local(fi.node):
+                if isinstance(n_, ast.Assign) and len(n_.targets) == 1 and isinstance(n_.targets[0], ast.Name) \
+                        and n_.targets[0].id == fn.id and isinstance(n_.value, ast.Subscript) \
+                        and self.dict_literal(fi, n_.value.value) is not None:
+                    inner = ast.Call(func=n_.value, args=call.args, keywords=call.keywords)
+                    r = self.resolve_call(fi, inner, local_types)
+                    if r.targets:
+                        return r
             if fn.id in fi.params or (local_types and fn.id in local_types):
                 return CallRes(how="param-call")
             return CallRes(external=fn.id, how="builtin")
@@ -688,9 +696,9 @@ class Program:
             if cands:
                 return CallRes(list(cands), how="cha")
             return CallRes(external=(rd or "?") + "." + name, how="unknown-attr")
-        if isinstance(fn, ast.Subscript) and isinstance(fn.value, ast.Dict):
+        if isinstance(fn, ast.Subscript) and self.dict_literal(fi, fn.value) is not None:
             out = []
-            for v in fn.value.values:
+            for v in self.dict_literal(fi, fn.value).values:
                 dv = dotted(v)
                 if dv is None:
                     continue
@@ -705,11 +713,38 @@ class Program:
                 return CallRes(out, how="dict-dispatch")
         return CallRes(how="dynamic")
 
+    def dict_literal(self, fi: FuncInfo, e: ast.AST) -> Optional[ast.Dict]:
+        """The dict display *e* denotes: itself, or the module / class level constant it names."""
+        if isinstance(e, ast.Dict):
+            return e
+        if isinstance(e, ast.Name):
+            v = fi.module.const_exprs.get(e.id)
+            if isinstance(v, ast.Dict):
+                return v
+        if isinstance(e, ast.Attribute) and isinstance(e.value, ast.Name):
+            if e.value.id in ("self", "cls") and fi.cls is not None:
+                for c in fi.cls.mro:
+                    if e.attr in c.attrs:
+                        return c.attrs[e.attr] if isinstance(c.attrs[e.attr], ast.Dict) else None
+            kind, obj = self.resolve_dotted(fi.module, e.value.id, fi)
+            if kind == "class" and isinstance(obj.attrs.get(e.attr), ast.Dict):
+                return obj.attrs[e.attr]
+            if kind == "module" and isinstance(obj.const_exprs.get(e.attr), ast.Dict):
+                return obj.const_exprs[e.attr]
+        return None
+
     def dict_dispatch_classes(self, fi: FuncInfo, call: ast.Call) -> List[ClassInfo]:
         fn = call.func
         out = []
-        if isinstance(fn, ast.Subscript) and isinstance(fn.value, ast.Dict):
-            for v in fn.value.values:
+        if isinstance(fn, ast.Name):
+            # cls_ = TABLE[key]; cls_(...)  - one local assignment
+            for n in walk_local(fi.node):
+                if isinstance(n, ast.Assign) and len(n.targets) == 1 and isinstance(n.targets[0], ast.Name) \
+                        and n.targets[0].id == fn.id and isinstance(n.value, ast.Subscript):
+                    fn = n.value
+                    break
+        if isinstance(fn, ast.Subscript) and self.dict_literal(fi, fn.value) is not None:
+            for v in self.dict_literal(fi, fn.value).values:
                 dv = dotted(v)
                 if dv is None:
                     continue
